@@ -33,7 +33,8 @@ Inductive mitem := Sync (r : reply) | Later.
 
 Inductive op :=
 | Submit (cb : list op)              (* SendRDMRequest(new request, callback running cb) *)
-| Disc (full : bool) (cb : list op)  (* RunFullDiscovery / RunIncrementalDiscovery *)
+| Disc (full null : bool) (cb : list op)  (* RunFullDiscovery / RunIncrementalDiscovery; null: the
+                                           caller passes a NULL callback (cb is then ignored) *)
 | Pause
 | Resume
 | Deliver (r : reply)   (* the underlying controller answers its oldest outstanding request *)
@@ -42,7 +43,8 @@ Inductive op :=
 Inductive frame :=
 | FOp (o : op)
 | FTakeNext                   (* the pending call of TakeNextAction() after a callback returned *)
-| FDiscLog (did run : N)      (* DiscoveryComplete loop: callback of discovery request did runs *)
+| FDiscLog (null : bool) (did run : N)  (* DiscoveryComplete loop: entry of discovery request did; its
+                                           callback runs unless the pointer is NULL *)
 | FDiscDone                   (* DiscoveryComplete: m_discovery_callbacks.clear(); TakeNextAction() *)
 | FDestroy.                   (* ~QueueingRDMController: the loop that fails what is (still) queued *)
 
@@ -89,69 +91,72 @@ Record st := mkSt {
   g_from : list N;
   h_open : N;
   g_rj : N;
-  h_destroying : bool
+  h_destroying : bool;
+  s_nulls : list N
 }.
 
 Definition set_s_max (v : N) (s : st) : st :=
-  mkSt v (s_discov s) (s_queue s) (s_pending s) (s_active s) (s_resp s) (s_nframes s) (s_pdisc s) (s_rdisc s) (m_out s) (m_dout s) (m_script s) (m_dscript s) (m_nrun s) (h_next s) (h_ndid s) (h_paused s) (g_parts s) (g_conc s) (g_psends s) (g_fatal s) (g_accepted s) (g_done s) (g_runs s) (g_ddone s) (g_trace s) (g_from s) (h_open s) (g_rj s) (h_destroying s).
+  mkSt v (s_discov s) (s_queue s) (s_pending s) (s_active s) (s_resp s) (s_nframes s) (s_pdisc s) (s_rdisc s) (m_out s) (m_dout s) (m_script s) (m_dscript s) (m_nrun s) (h_next s) (h_ndid s) (h_paused s) (g_parts s) (g_conc s) (g_psends s) (g_fatal s) (g_accepted s) (g_done s) (g_runs s) (g_ddone s) (g_trace s) (g_from s) (h_open s) (g_rj s) (h_destroying s) (s_nulls s).
 Definition set_s_discov (v : bool) (s : st) : st :=
-  mkSt (s_max s) v (s_queue s) (s_pending s) (s_active s) (s_resp s) (s_nframes s) (s_pdisc s) (s_rdisc s) (m_out s) (m_dout s) (m_script s) (m_dscript s) (m_nrun s) (h_next s) (h_ndid s) (h_paused s) (g_parts s) (g_conc s) (g_psends s) (g_fatal s) (g_accepted s) (g_done s) (g_runs s) (g_ddone s) (g_trace s) (g_from s) (h_open s) (g_rj s) (h_destroying s).
+  mkSt (s_max s) v (s_queue s) (s_pending s) (s_active s) (s_resp s) (s_nframes s) (s_pdisc s) (s_rdisc s) (m_out s) (m_dout s) (m_script s) (m_dscript s) (m_nrun s) (h_next s) (h_ndid s) (h_paused s) (g_parts s) (g_conc s) (g_psends s) (g_fatal s) (g_accepted s) (g_done s) (g_runs s) (g_ddone s) (g_trace s) (g_from s) (h_open s) (g_rj s) (h_destroying s) (s_nulls s).
 Definition set_s_queue (v : list (N * list op)) (s : st) : st :=
-  mkSt (s_max s) (s_discov s) v (s_pending s) (s_active s) (s_resp s) (s_nframes s) (s_pdisc s) (s_rdisc s) (m_out s) (m_dout s) (m_script s) (m_dscript s) (m_nrun s) (h_next s) (h_ndid s) (h_paused s) (g_parts s) (g_conc s) (g_psends s) (g_fatal s) (g_accepted s) (g_done s) (g_runs s) (g_ddone s) (g_trace s) (g_from s) (h_open s) (g_rj s) (h_destroying s).
+  mkSt (s_max s) (s_discov s) v (s_pending s) (s_active s) (s_resp s) (s_nframes s) (s_pdisc s) (s_rdisc s) (m_out s) (m_dout s) (m_script s) (m_dscript s) (m_nrun s) (h_next s) (h_ndid s) (h_paused s) (g_parts s) (g_conc s) (g_psends s) (g_fatal s) (g_accepted s) (g_done s) (g_runs s) (g_ddone s) (g_trace s) (g_from s) (h_open s) (g_rj s) (h_destroying s) (s_nulls s).
 Definition set_s_pending (v : bool) (s : st) : st :=
-  mkSt (s_max s) (s_discov s) (s_queue s) v (s_active s) (s_resp s) (s_nframes s) (s_pdisc s) (s_rdisc s) (m_out s) (m_dout s) (m_script s) (m_dscript s) (m_nrun s) (h_next s) (h_ndid s) (h_paused s) (g_parts s) (g_conc s) (g_psends s) (g_fatal s) (g_accepted s) (g_done s) (g_runs s) (g_ddone s) (g_trace s) (g_from s) (h_open s) (g_rj s) (h_destroying s).
+  mkSt (s_max s) (s_discov s) (s_queue s) v (s_active s) (s_resp s) (s_nframes s) (s_pdisc s) (s_rdisc s) (m_out s) (m_dout s) (m_script s) (m_dscript s) (m_nrun s) (h_next s) (h_ndid s) (h_paused s) (g_parts s) (g_conc s) (g_psends s) (g_fatal s) (g_accepted s) (g_done s) (g_runs s) (g_ddone s) (g_trace s) (g_from s) (h_open s) (g_rj s) (h_destroying s) (s_nulls s).
 Definition set_s_active (v : bool) (s : st) : st :=
-  mkSt (s_max s) (s_discov s) (s_queue s) (s_pending s) v (s_resp s) (s_nframes s) (s_pdisc s) (s_rdisc s) (m_out s) (m_dout s) (m_script s) (m_dscript s) (m_nrun s) (h_next s) (h_ndid s) (h_paused s) (g_parts s) (g_conc s) (g_psends s) (g_fatal s) (g_accepted s) (g_done s) (g_runs s) (g_ddone s) (g_trace s) (g_from s) (h_open s) (g_rj s) (h_destroying s).
+  mkSt (s_max s) (s_discov s) (s_queue s) (s_pending s) v (s_resp s) (s_nframes s) (s_pdisc s) (s_rdisc s) (m_out s) (m_dout s) (m_script s) (m_dscript s) (m_nrun s) (h_next s) (h_ndid s) (h_paused s) (g_parts s) (g_conc s) (g_psends s) (g_fatal s) (g_accepted s) (g_done s) (g_runs s) (g_ddone s) (g_trace s) (g_from s) (h_open s) (g_rj s) (h_destroying s) (s_nulls s).
 Definition set_s_resp (v : option resp) (s : st) : st :=
-  mkSt (s_max s) (s_discov s) (s_queue s) (s_pending s) (s_active s) v (s_nframes s) (s_pdisc s) (s_rdisc s) (m_out s) (m_dout s) (m_script s) (m_dscript s) (m_nrun s) (h_next s) (h_ndid s) (h_paused s) (g_parts s) (g_conc s) (g_psends s) (g_fatal s) (g_accepted s) (g_done s) (g_runs s) (g_ddone s) (g_trace s) (g_from s) (h_open s) (g_rj s) (h_destroying s).
+  mkSt (s_max s) (s_discov s) (s_queue s) (s_pending s) (s_active s) v (s_nframes s) (s_pdisc s) (s_rdisc s) (m_out s) (m_dout s) (m_script s) (m_dscript s) (m_nrun s) (h_next s) (h_ndid s) (h_paused s) (g_parts s) (g_conc s) (g_psends s) (g_fatal s) (g_accepted s) (g_done s) (g_runs s) (g_ddone s) (g_trace s) (g_from s) (h_open s) (g_rj s) (h_destroying s) (s_nulls s).
 Definition set_s_nframes (v : N) (s : st) : st :=
-  mkSt (s_max s) (s_discov s) (s_queue s) (s_pending s) (s_active s) (s_resp s) v (s_pdisc s) (s_rdisc s) (m_out s) (m_dout s) (m_script s) (m_dscript s) (m_nrun s) (h_next s) (h_ndid s) (h_paused s) (g_parts s) (g_conc s) (g_psends s) (g_fatal s) (g_accepted s) (g_done s) (g_runs s) (g_ddone s) (g_trace s) (g_from s) (h_open s) (g_rj s) (h_destroying s).
+  mkSt (s_max s) (s_discov s) (s_queue s) (s_pending s) (s_active s) (s_resp s) v (s_pdisc s) (s_rdisc s) (m_out s) (m_dout s) (m_script s) (m_dscript s) (m_nrun s) (h_next s) (h_ndid s) (h_paused s) (g_parts s) (g_conc s) (g_psends s) (g_fatal s) (g_accepted s) (g_done s) (g_runs s) (g_ddone s) (g_trace s) (g_from s) (h_open s) (g_rj s) (h_destroying s) (s_nulls s).
 Definition set_s_pdisc (v : list (bool * N * list op)) (s : st) : st :=
-  mkSt (s_max s) (s_discov s) (s_queue s) (s_pending s) (s_active s) (s_resp s) (s_nframes s) v (s_rdisc s) (m_out s) (m_dout s) (m_script s) (m_dscript s) (m_nrun s) (h_next s) (h_ndid s) (h_paused s) (g_parts s) (g_conc s) (g_psends s) (g_fatal s) (g_accepted s) (g_done s) (g_runs s) (g_ddone s) (g_trace s) (g_from s) (h_open s) (g_rj s) (h_destroying s).
+  mkSt (s_max s) (s_discov s) (s_queue s) (s_pending s) (s_active s) (s_resp s) (s_nframes s) v (s_rdisc s) (m_out s) (m_dout s) (m_script s) (m_dscript s) (m_nrun s) (h_next s) (h_ndid s) (h_paused s) (g_parts s) (g_conc s) (g_psends s) (g_fatal s) (g_accepted s) (g_done s) (g_runs s) (g_ddone s) (g_trace s) (g_from s) (h_open s) (g_rj s) (h_destroying s) (s_nulls s).
 Definition set_s_rdisc (v : list (N * option (list op))) (s : st) : st :=
-  mkSt (s_max s) (s_discov s) (s_queue s) (s_pending s) (s_active s) (s_resp s) (s_nframes s) (s_pdisc s) v (m_out s) (m_dout s) (m_script s) (m_dscript s) (m_nrun s) (h_next s) (h_ndid s) (h_paused s) (g_parts s) (g_conc s) (g_psends s) (g_fatal s) (g_accepted s) (g_done s) (g_runs s) (g_ddone s) (g_trace s) (g_from s) (h_open s) (g_rj s) (h_destroying s).
+  mkSt (s_max s) (s_discov s) (s_queue s) (s_pending s) (s_active s) (s_resp s) (s_nframes s) (s_pdisc s) v (m_out s) (m_dout s) (m_script s) (m_dscript s) (m_nrun s) (h_next s) (h_ndid s) (h_paused s) (g_parts s) (g_conc s) (g_psends s) (g_fatal s) (g_accepted s) (g_done s) (g_runs s) (g_ddone s) (g_trace s) (g_from s) (h_open s) (g_rj s) (h_destroying s) (s_nulls s).
 Definition set_m_out (v : list N) (s : st) : st :=
-  mkSt (s_max s) (s_discov s) (s_queue s) (s_pending s) (s_active s) (s_resp s) (s_nframes s) (s_pdisc s) (s_rdisc s) v (m_dout s) (m_script s) (m_dscript s) (m_nrun s) (h_next s) (h_ndid s) (h_paused s) (g_parts s) (g_conc s) (g_psends s) (g_fatal s) (g_accepted s) (g_done s) (g_runs s) (g_ddone s) (g_trace s) (g_from s) (h_open s) (g_rj s) (h_destroying s).
+  mkSt (s_max s) (s_discov s) (s_queue s) (s_pending s) (s_active s) (s_resp s) (s_nframes s) (s_pdisc s) (s_rdisc s) v (m_dout s) (m_script s) (m_dscript s) (m_nrun s) (h_next s) (h_ndid s) (h_paused s) (g_parts s) (g_conc s) (g_psends s) (g_fatal s) (g_accepted s) (g_done s) (g_runs s) (g_ddone s) (g_trace s) (g_from s) (h_open s) (g_rj s) (h_destroying s) (s_nulls s).
 Definition set_m_dout (v : list N) (s : st) : st :=
-  mkSt (s_max s) (s_discov s) (s_queue s) (s_pending s) (s_active s) (s_resp s) (s_nframes s) (s_pdisc s) (s_rdisc s) (m_out s) v (m_script s) (m_dscript s) (m_nrun s) (h_next s) (h_ndid s) (h_paused s) (g_parts s) (g_conc s) (g_psends s) (g_fatal s) (g_accepted s) (g_done s) (g_runs s) (g_ddone s) (g_trace s) (g_from s) (h_open s) (g_rj s) (h_destroying s).
+  mkSt (s_max s) (s_discov s) (s_queue s) (s_pending s) (s_active s) (s_resp s) (s_nframes s) (s_pdisc s) (s_rdisc s) (m_out s) v (m_script s) (m_dscript s) (m_nrun s) (h_next s) (h_ndid s) (h_paused s) (g_parts s) (g_conc s) (g_psends s) (g_fatal s) (g_accepted s) (g_done s) (g_runs s) (g_ddone s) (g_trace s) (g_from s) (h_open s) (g_rj s) (h_destroying s) (s_nulls s).
 Definition set_m_script (v : list mitem) (s : st) : st :=
-  mkSt (s_max s) (s_discov s) (s_queue s) (s_pending s) (s_active s) (s_resp s) (s_nframes s) (s_pdisc s) (s_rdisc s) (m_out s) (m_dout s) v (m_dscript s) (m_nrun s) (h_next s) (h_ndid s) (h_paused s) (g_parts s) (g_conc s) (g_psends s) (g_fatal s) (g_accepted s) (g_done s) (g_runs s) (g_ddone s) (g_trace s) (g_from s) (h_open s) (g_rj s) (h_destroying s).
+  mkSt (s_max s) (s_discov s) (s_queue s) (s_pending s) (s_active s) (s_resp s) (s_nframes s) (s_pdisc s) (s_rdisc s) (m_out s) (m_dout s) v (m_dscript s) (m_nrun s) (h_next s) (h_ndid s) (h_paused s) (g_parts s) (g_conc s) (g_psends s) (g_fatal s) (g_accepted s) (g_done s) (g_runs s) (g_ddone s) (g_trace s) (g_from s) (h_open s) (g_rj s) (h_destroying s) (s_nulls s).
 Definition set_m_dscript (v : list bool) (s : st) : st :=
-  mkSt (s_max s) (s_discov s) (s_queue s) (s_pending s) (s_active s) (s_resp s) (s_nframes s) (s_pdisc s) (s_rdisc s) (m_out s) (m_dout s) (m_script s) v (m_nrun s) (h_next s) (h_ndid s) (h_paused s) (g_parts s) (g_conc s) (g_psends s) (g_fatal s) (g_accepted s) (g_done s) (g_runs s) (g_ddone s) (g_trace s) (g_from s) (h_open s) (g_rj s) (h_destroying s).
+  mkSt (s_max s) (s_discov s) (s_queue s) (s_pending s) (s_active s) (s_resp s) (s_nframes s) (s_pdisc s) (s_rdisc s) (m_out s) (m_dout s) (m_script s) v (m_nrun s) (h_next s) (h_ndid s) (h_paused s) (g_parts s) (g_conc s) (g_psends s) (g_fatal s) (g_accepted s) (g_done s) (g_runs s) (g_ddone s) (g_trace s) (g_from s) (h_open s) (g_rj s) (h_destroying s) (s_nulls s).
 Definition set_m_nrun (v : N) (s : st) : st :=
-  mkSt (s_max s) (s_discov s) (s_queue s) (s_pending s) (s_active s) (s_resp s) (s_nframes s) (s_pdisc s) (s_rdisc s) (m_out s) (m_dout s) (m_script s) (m_dscript s) v (h_next s) (h_ndid s) (h_paused s) (g_parts s) (g_conc s) (g_psends s) (g_fatal s) (g_accepted s) (g_done s) (g_runs s) (g_ddone s) (g_trace s) (g_from s) (h_open s) (g_rj s) (h_destroying s).
+  mkSt (s_max s) (s_discov s) (s_queue s) (s_pending s) (s_active s) (s_resp s) (s_nframes s) (s_pdisc s) (s_rdisc s) (m_out s) (m_dout s) (m_script s) (m_dscript s) v (h_next s) (h_ndid s) (h_paused s) (g_parts s) (g_conc s) (g_psends s) (g_fatal s) (g_accepted s) (g_done s) (g_runs s) (g_ddone s) (g_trace s) (g_from s) (h_open s) (g_rj s) (h_destroying s) (s_nulls s).
 Definition set_h_next (v : N) (s : st) : st :=
-  mkSt (s_max s) (s_discov s) (s_queue s) (s_pending s) (s_active s) (s_resp s) (s_nframes s) (s_pdisc s) (s_rdisc s) (m_out s) (m_dout s) (m_script s) (m_dscript s) (m_nrun s) v (h_ndid s) (h_paused s) (g_parts s) (g_conc s) (g_psends s) (g_fatal s) (g_accepted s) (g_done s) (g_runs s) (g_ddone s) (g_trace s) (g_from s) (h_open s) (g_rj s) (h_destroying s).
+  mkSt (s_max s) (s_discov s) (s_queue s) (s_pending s) (s_active s) (s_resp s) (s_nframes s) (s_pdisc s) (s_rdisc s) (m_out s) (m_dout s) (m_script s) (m_dscript s) (m_nrun s) v (h_ndid s) (h_paused s) (g_parts s) (g_conc s) (g_psends s) (g_fatal s) (g_accepted s) (g_done s) (g_runs s) (g_ddone s) (g_trace s) (g_from s) (h_open s) (g_rj s) (h_destroying s) (s_nulls s).
 Definition set_h_ndid (v : N) (s : st) : st :=
-  mkSt (s_max s) (s_discov s) (s_queue s) (s_pending s) (s_active s) (s_resp s) (s_nframes s) (s_pdisc s) (s_rdisc s) (m_out s) (m_dout s) (m_script s) (m_dscript s) (m_nrun s) (h_next s) v (h_paused s) (g_parts s) (g_conc s) (g_psends s) (g_fatal s) (g_accepted s) (g_done s) (g_runs s) (g_ddone s) (g_trace s) (g_from s) (h_open s) (g_rj s) (h_destroying s).
+  mkSt (s_max s) (s_discov s) (s_queue s) (s_pending s) (s_active s) (s_resp s) (s_nframes s) (s_pdisc s) (s_rdisc s) (m_out s) (m_dout s) (m_script s) (m_dscript s) (m_nrun s) (h_next s) v (h_paused s) (g_parts s) (g_conc s) (g_psends s) (g_fatal s) (g_accepted s) (g_done s) (g_runs s) (g_ddone s) (g_trace s) (g_from s) (h_open s) (g_rj s) (h_destroying s) (s_nulls s).
 Definition set_h_paused (v : bool) (s : st) : st :=
-  mkSt (s_max s) (s_discov s) (s_queue s) (s_pending s) (s_active s) (s_resp s) (s_nframes s) (s_pdisc s) (s_rdisc s) (m_out s) (m_dout s) (m_script s) (m_dscript s) (m_nrun s) (h_next s) (h_ndid s) v (g_parts s) (g_conc s) (g_psends s) (g_fatal s) (g_accepted s) (g_done s) (g_runs s) (g_ddone s) (g_trace s) (g_from s) (h_open s) (g_rj s) (h_destroying s).
+  mkSt (s_max s) (s_discov s) (s_queue s) (s_pending s) (s_active s) (s_resp s) (s_nframes s) (s_pdisc s) (s_rdisc s) (m_out s) (m_dout s) (m_script s) (m_dscript s) (m_nrun s) (h_next s) (h_ndid s) v (g_parts s) (g_conc s) (g_psends s) (g_fatal s) (g_accepted s) (g_done s) (g_runs s) (g_ddone s) (g_trace s) (g_from s) (h_open s) (g_rj s) (h_destroying s) (s_nulls s).
 Definition set_g_parts (v : list (list N)) (s : st) : st :=
-  mkSt (s_max s) (s_discov s) (s_queue s) (s_pending s) (s_active s) (s_resp s) (s_nframes s) (s_pdisc s) (s_rdisc s) (m_out s) (m_dout s) (m_script s) (m_dscript s) (m_nrun s) (h_next s) (h_ndid s) (h_paused s) v (g_conc s) (g_psends s) (g_fatal s) (g_accepted s) (g_done s) (g_runs s) (g_ddone s) (g_trace s) (g_from s) (h_open s) (g_rj s) (h_destroying s).
+  mkSt (s_max s) (s_discov s) (s_queue s) (s_pending s) (s_active s) (s_resp s) (s_nframes s) (s_pdisc s) (s_rdisc s) (m_out s) (m_dout s) (m_script s) (m_dscript s) (m_nrun s) (h_next s) (h_ndid s) (h_paused s) v (g_conc s) (g_psends s) (g_fatal s) (g_accepted s) (g_done s) (g_runs s) (g_ddone s) (g_trace s) (g_from s) (h_open s) (g_rj s) (h_destroying s) (s_nulls s).
 Definition set_g_conc (v : N) (s : st) : st :=
-  mkSt (s_max s) (s_discov s) (s_queue s) (s_pending s) (s_active s) (s_resp s) (s_nframes s) (s_pdisc s) (s_rdisc s) (m_out s) (m_dout s) (m_script s) (m_dscript s) (m_nrun s) (h_next s) (h_ndid s) (h_paused s) (g_parts s) v (g_psends s) (g_fatal s) (g_accepted s) (g_done s) (g_runs s) (g_ddone s) (g_trace s) (g_from s) (h_open s) (g_rj s) (h_destroying s).
+  mkSt (s_max s) (s_discov s) (s_queue s) (s_pending s) (s_active s) (s_resp s) (s_nframes s) (s_pdisc s) (s_rdisc s) (m_out s) (m_dout s) (m_script s) (m_dscript s) (m_nrun s) (h_next s) (h_ndid s) (h_paused s) (g_parts s) v (g_psends s) (g_fatal s) (g_accepted s) (g_done s) (g_runs s) (g_ddone s) (g_trace s) (g_from s) (h_open s) (g_rj s) (h_destroying s) (s_nulls s).
 Definition set_g_psends (v : N) (s : st) : st :=
-  mkSt (s_max s) (s_discov s) (s_queue s) (s_pending s) (s_active s) (s_resp s) (s_nframes s) (s_pdisc s) (s_rdisc s) (m_out s) (m_dout s) (m_script s) (m_dscript s) (m_nrun s) (h_next s) (h_ndid s) (h_paused s) (g_parts s) (g_conc s) v (g_fatal s) (g_accepted s) (g_done s) (g_runs s) (g_ddone s) (g_trace s) (g_from s) (h_open s) (g_rj s) (h_destroying s).
+  mkSt (s_max s) (s_discov s) (s_queue s) (s_pending s) (s_active s) (s_resp s) (s_nframes s) (s_pdisc s) (s_rdisc s) (m_out s) (m_dout s) (m_script s) (m_dscript s) (m_nrun s) (h_next s) (h_ndid s) (h_paused s) (g_parts s) (g_conc s) v (g_fatal s) (g_accepted s) (g_done s) (g_runs s) (g_ddone s) (g_trace s) (g_from s) (h_open s) (g_rj s) (h_destroying s) (s_nulls s).
 Definition set_g_fatal (v : bool) (s : st) : st :=
-  mkSt (s_max s) (s_discov s) (s_queue s) (s_pending s) (s_active s) (s_resp s) (s_nframes s) (s_pdisc s) (s_rdisc s) (m_out s) (m_dout s) (m_script s) (m_dscript s) (m_nrun s) (h_next s) (h_ndid s) (h_paused s) (g_parts s) (g_conc s) (g_psends s) v (g_accepted s) (g_done s) (g_runs s) (g_ddone s) (g_trace s) (g_from s) (h_open s) (g_rj s) (h_destroying s).
+  mkSt (s_max s) (s_discov s) (s_queue s) (s_pending s) (s_active s) (s_resp s) (s_nframes s) (s_pdisc s) (s_rdisc s) (m_out s) (m_dout s) (m_script s) (m_dscript s) (m_nrun s) (h_next s) (h_ndid s) (h_paused s) (g_parts s) (g_conc s) (g_psends s) v (g_accepted s) (g_done s) (g_runs s) (g_ddone s) (g_trace s) (g_from s) (h_open s) (g_rj s) (h_destroying s) (s_nulls s).
 Definition set_g_accepted (v : list N) (s : st) : st :=
-  mkSt (s_max s) (s_discov s) (s_queue s) (s_pending s) (s_active s) (s_resp s) (s_nframes s) (s_pdisc s) (s_rdisc s) (m_out s) (m_dout s) (m_script s) (m_dscript s) (m_nrun s) (h_next s) (h_ndid s) (h_paused s) (g_parts s) (g_conc s) (g_psends s) (g_fatal s) v (g_done s) (g_runs s) (g_ddone s) (g_trace s) (g_from s) (h_open s) (g_rj s) (h_destroying s).
+  mkSt (s_max s) (s_discov s) (s_queue s) (s_pending s) (s_active s) (s_resp s) (s_nframes s) (s_pdisc s) (s_rdisc s) (m_out s) (m_dout s) (m_script s) (m_dscript s) (m_nrun s) (h_next s) (h_ndid s) (h_paused s) (g_parts s) (g_conc s) (g_psends s) (g_fatal s) v (g_done s) (g_runs s) (g_ddone s) (g_trace s) (g_from s) (h_open s) (g_rj s) (h_destroying s) (s_nulls s).
 Definition set_g_done (v : list comp) (s : st) : st :=
-  mkSt (s_max s) (s_discov s) (s_queue s) (s_pending s) (s_active s) (s_resp s) (s_nframes s) (s_pdisc s) (s_rdisc s) (m_out s) (m_dout s) (m_script s) (m_dscript s) (m_nrun s) (h_next s) (h_ndid s) (h_paused s) (g_parts s) (g_conc s) (g_psends s) (g_fatal s) (g_accepted s) v (g_runs s) (g_ddone s) (g_trace s) (g_from s) (h_open s) (g_rj s) (h_destroying s).
+  mkSt (s_max s) (s_discov s) (s_queue s) (s_pending s) (s_active s) (s_resp s) (s_nframes s) (s_pdisc s) (s_rdisc s) (m_out s) (m_dout s) (m_script s) (m_dscript s) (m_nrun s) (h_next s) (h_ndid s) (h_paused s) (g_parts s) (g_conc s) (g_psends s) (g_fatal s) (g_accepted s) v (g_runs s) (g_ddone s) (g_trace s) (g_from s) (h_open s) (g_rj s) (h_destroying s) (s_nulls s).
 Definition set_g_runs (v : list (N * bool * list (bool * N))) (s : st) : st :=
-  mkSt (s_max s) (s_discov s) (s_queue s) (s_pending s) (s_active s) (s_resp s) (s_nframes s) (s_pdisc s) (s_rdisc s) (m_out s) (m_dout s) (m_script s) (m_dscript s) (m_nrun s) (h_next s) (h_ndid s) (h_paused s) (g_parts s) (g_conc s) (g_psends s) (g_fatal s) (g_accepted s) (g_done s) v (g_ddone s) (g_trace s) (g_from s) (h_open s) (g_rj s) (h_destroying s).
+  mkSt (s_max s) (s_discov s) (s_queue s) (s_pending s) (s_active s) (s_resp s) (s_nframes s) (s_pdisc s) (s_rdisc s) (m_out s) (m_dout s) (m_script s) (m_dscript s) (m_nrun s) (h_next s) (h_ndid s) (h_paused s) (g_parts s) (g_conc s) (g_psends s) (g_fatal s) (g_accepted s) (g_done s) v (g_ddone s) (g_trace s) (g_from s) (h_open s) (g_rj s) (h_destroying s) (s_nulls s).
 Definition set_g_ddone (v : list (N * N)) (s : st) : st :=
-  mkSt (s_max s) (s_discov s) (s_queue s) (s_pending s) (s_active s) (s_resp s) (s_nframes s) (s_pdisc s) (s_rdisc s) (m_out s) (m_dout s) (m_script s) (m_dscript s) (m_nrun s) (h_next s) (h_ndid s) (h_paused s) (g_parts s) (g_conc s) (g_psends s) (g_fatal s) (g_accepted s) (g_done s) (g_runs s) v (g_trace s) (g_from s) (h_open s) (g_rj s) (h_destroying s).
+  mkSt (s_max s) (s_discov s) (s_queue s) (s_pending s) (s_active s) (s_resp s) (s_nframes s) (s_pdisc s) (s_rdisc s) (m_out s) (m_dout s) (m_script s) (m_dscript s) (m_nrun s) (h_next s) (h_ndid s) (h_paused s) (g_parts s) (g_conc s) (g_psends s) (g_fatal s) (g_accepted s) (g_done s) (g_runs s) v (g_trace s) (g_from s) (h_open s) (g_rj s) (h_destroying s) (s_nulls s).
 Definition set_g_trace (v : list tev) (s : st) : st :=
-  mkSt (s_max s) (s_discov s) (s_queue s) (s_pending s) (s_active s) (s_resp s) (s_nframes s) (s_pdisc s) (s_rdisc s) (m_out s) (m_dout s) (m_script s) (m_dscript s) (m_nrun s) (h_next s) (h_ndid s) (h_paused s) (g_parts s) (g_conc s) (g_psends s) (g_fatal s) (g_accepted s) (g_done s) (g_runs s) (g_ddone s) v (g_from s) (h_open s) (g_rj s) (h_destroying s).
+  mkSt (s_max s) (s_discov s) (s_queue s) (s_pending s) (s_active s) (s_resp s) (s_nframes s) (s_pdisc s) (s_rdisc s) (m_out s) (m_dout s) (m_script s) (m_dscript s) (m_nrun s) (h_next s) (h_ndid s) (h_paused s) (g_parts s) (g_conc s) (g_psends s) (g_fatal s) (g_accepted s) (g_done s) (g_runs s) (g_ddone s) v (g_from s) (h_open s) (g_rj s) (h_destroying s) (s_nulls s).
 Definition set_g_from (v : list N) (s : st) : st :=
-  mkSt (s_max s) (s_discov s) (s_queue s) (s_pending s) (s_active s) (s_resp s) (s_nframes s) (s_pdisc s) (s_rdisc s) (m_out s) (m_dout s) (m_script s) (m_dscript s) (m_nrun s) (h_next s) (h_ndid s) (h_paused s) (g_parts s) (g_conc s) (g_psends s) (g_fatal s) (g_accepted s) (g_done s) (g_runs s) (g_ddone s) (g_trace s) v (h_open s) (g_rj s) (h_destroying s).
+  mkSt (s_max s) (s_discov s) (s_queue s) (s_pending s) (s_active s) (s_resp s) (s_nframes s) (s_pdisc s) (s_rdisc s) (m_out s) (m_dout s) (m_script s) (m_dscript s) (m_nrun s) (h_next s) (h_ndid s) (h_paused s) (g_parts s) (g_conc s) (g_psends s) (g_fatal s) (g_accepted s) (g_done s) (g_runs s) (g_ddone s) (g_trace s) v (h_open s) (g_rj s) (h_destroying s) (s_nulls s).
 Definition set_h_open (v : N) (s : st) : st :=
-  mkSt (s_max s) (s_discov s) (s_queue s) (s_pending s) (s_active s) (s_resp s) (s_nframes s) (s_pdisc s) (s_rdisc s) (m_out s) (m_dout s) (m_script s) (m_dscript s) (m_nrun s) (h_next s) (h_ndid s) (h_paused s) (g_parts s) (g_conc s) (g_psends s) (g_fatal s) (g_accepted s) (g_done s) (g_runs s) (g_ddone s) (g_trace s) (g_from s) v (g_rj s) (h_destroying s).
+  mkSt (s_max s) (s_discov s) (s_queue s) (s_pending s) (s_active s) (s_resp s) (s_nframes s) (s_pdisc s) (s_rdisc s) (m_out s) (m_dout s) (m_script s) (m_dscript s) (m_nrun s) (h_next s) (h_ndid s) (h_paused s) (g_parts s) (g_conc s) (g_psends s) (g_fatal s) (g_accepted s) (g_done s) (g_runs s) (g_ddone s) (g_trace s) (g_from s) v (g_rj s) (h_destroying s) (s_nulls s).
 Definition set_g_rj (v : N) (s : st) : st :=
-  mkSt (s_max s) (s_discov s) (s_queue s) (s_pending s) (s_active s) (s_resp s) (s_nframes s) (s_pdisc s) (s_rdisc s) (m_out s) (m_dout s) (m_script s) (m_dscript s) (m_nrun s) (h_next s) (h_ndid s) (h_paused s) (g_parts s) (g_conc s) (g_psends s) (g_fatal s) (g_accepted s) (g_done s) (g_runs s) (g_ddone s) (g_trace s) (g_from s) (h_open s) v (h_destroying s).
+  mkSt (s_max s) (s_discov s) (s_queue s) (s_pending s) (s_active s) (s_resp s) (s_nframes s) (s_pdisc s) (s_rdisc s) (m_out s) (m_dout s) (m_script s) (m_dscript s) (m_nrun s) (h_next s) (h_ndid s) (h_paused s) (g_parts s) (g_conc s) (g_psends s) (g_fatal s) (g_accepted s) (g_done s) (g_runs s) (g_ddone s) (g_trace s) (g_from s) (h_open s) v (h_destroying s) (s_nulls s).
 Definition set_h_destroying (v : bool) (s : st) : st :=
-  mkSt (s_max s) (s_discov s) (s_queue s) (s_pending s) (s_active s) (s_resp s) (s_nframes s) (s_pdisc s) (s_rdisc s) (m_out s) (m_dout s) (m_script s) (m_dscript s) (m_nrun s) (h_next s) (h_ndid s) (h_paused s) (g_parts s) (g_conc s) (g_psends s) (g_fatal s) (g_accepted s) (g_done s) (g_runs s) (g_ddone s) (g_trace s) (g_from s) (h_open s) (g_rj s) v.
+  mkSt (s_max s) (s_discov s) (s_queue s) (s_pending s) (s_active s) (s_resp s) (s_nframes s) (s_pdisc s) (s_rdisc s) (m_out s) (m_dout s) (m_script s) (m_dscript s) (m_nrun s) (h_next s) (h_ndid s) (h_paused s) (g_parts s) (g_conc s) (g_psends s) (g_fatal s) (g_accepted s) (g_done s) (g_runs s) (g_ddone s) (g_trace s) (g_from s) (h_open s) (g_rj s) v (s_nulls s).
+Definition set_s_nulls (v : list N) (s : st) : st :=
+  mkSt (s_max s) (s_discov s) (s_queue s) (s_pending s) (s_active s) (s_resp s) (s_nframes s) (s_pdisc s) (s_rdisc s) (m_out s) (m_dout s) (m_script s) (m_dscript s) (m_nrun s) (h_next s) (h_ndid s) (h_paused s) (g_parts s) (g_conc s) (g_psends s) (g_fatal s) (g_accepted s) (g_done s) (g_runs s) (g_ddone s) (g_trace s) (g_from s) (h_open s) (g_rj s) (h_destroying s) v.
 
 Definition K_ANSWERED : N := 0.
 Definition K_REJECTED : N := 1.
@@ -160,7 +165,7 @@ Definition K_DESTROYED : N := 2.
 Definition is_nil {A} (l : list A) : bool := match l with [] => true | _ => false end.
 
 Definition init (max : N) (discov : bool) (ms : list mitem) (ds : list bool) : st :=
-  mkSt max discov [] false true None 0 [] [] [] [] ms ds 0 0 0 false [] 0 0 false [] [] [] [] [] [] 0 0 false.
+  mkSt max discov [] false true None 0 [] [] [] [] ms ds 0 0 0 false [] 0 0 false [] [] [] [] [] [] 0 0 false [].
 
 (* RDMResponse::CombineResponses *)
 Definition combine (a b : resp) : option resp :=
@@ -297,10 +302,17 @@ Definition handle (from : N) (rep : reply) (s : st) (ag : list frame) : st * lis
 
 (* DiscoveryComplete: run every callback of m_discovery_callbacks (single-use callbacks: an entry
    that has run is None), then clear and TakeNextAction *)
+(* m_discovery_callbacks holds one pointer per request taken by the run, NULL pointers included (a
+   discovery whose callers all passed NULL still keeps the vector non-empty while it runs).  In the
+   model an entry is (id, Some ops) until DiscoveryComplete has passed it and (id, None) afterwards;
+   the ids whose pointer is NULL are in s_nulls (their ops are []). *)
+Definition is_null (nulls : list N) (d : N) : bool := existsb (N.eqb d) nulls.
+Definition disc_frames (nulls : list N) (run : N) (r : list (N * option (list op))) : list frame :=
+  flat_map (fun e => match snd e with
+                     | Some cb => FDiscLog (is_null nulls (fst e)) (fst e) run :: map FOp cb
+                     | None => [] end) r.
 Definition disc_complete (run : N) (s : st) (ag : list frame) : st * list frame :=
-  let frames := flat_map (fun e => match snd e with
-                                   | Some cb => FDiscLog (fst e) run :: map FOp cb
-                                   | None => [] end) (s_rdisc s) in
+  let frames := disc_frames (s_nulls s) run (s_rdisc s) in
   let s := set_s_rdisc (map (fun e => (fst e, None)) (s_rdisc s)) s in
   (s, frames ++ FDiscDone :: ag).
 
@@ -326,12 +338,13 @@ Definition do_op (o : op) (s : st) (ag : list frame) : st * list frame :=
       let s := set_s_queue (s_queue s ++ [(id, cb)]) s in
       let s := set_g_accepted (g_accepted s ++ [id]) s in
       take_next s ag
-  | Disc full cb =>
+  | Disc full null cb =>
     (* during ~QueueingRDMController the derived part of the object is gone: not a legal call *)
     if s_discov s && negb (h_destroying s) then
       let did := h_ndid s in
       let s := set_h_ndid (did + 1) s in
-      let s := set_s_pdisc (s_pdisc s ++ [(full, did, cb)]) s in
+      let s := set_s_pdisc (s_pdisc s ++ [(full, did, if null then [] else cb)]) s in
+      let s := set_s_nulls (if null then s_nulls s ++ [did] else s_nulls s) s in
       take_next s ag
     else (s, ag)
   | Deliver r =>
@@ -366,8 +379,10 @@ Definition step (s : st) (f : frame) (ag : list frame) : st * list frame :=
   match f with
   | FOp o => do_op o s ag
   | FTakeNext => take_next s ag
-  | FDiscLog did run =>
-    (set_g_trace (g_trace s ++ [TDiscCb did run]) (set_g_ddone (g_ddone s ++ [(did, run)]) s), ag)
+  | FDiscLog null did run =>
+    (* the request is satisfied by this run; a user callback runs (and is observed) unless NULL *)
+    (set_g_trace (if null then g_trace s else g_trace s ++ [TDiscCb did run])
+                 (set_g_ddone (g_ddone s ++ [(did, run)]) s), ag)
   | FDiscDone => take_next (set_s_rdisc [] s) ag
   | FDestroy => if h_destroying s then destroy_next s ag else (s, ag)   (* only the destructor pushes it *)
   end.
@@ -387,7 +402,7 @@ Fixpoint run (fuel : nat) (s : st) (ag : list frame) : option st :=
 Fixpoint wop (o : op) : nat :=
   match o with
   | Submit cb => 3 + (fix wl (l : list op) := match l with [] => 0 | x :: r => wop x + wl r end) cb
-  | Disc _ cb => 3 + (fix wl (l : list op) := match l with [] => 0 | x :: r => wop x + wl r end) cb
+  | Disc _ _ cb => 3 + (fix wl (l : list op) := match l with [] => 0 | x :: r => wop x + wl r end) cb
   | Pause => 1
   | Resume => 1
   | Deliver _ => 3
@@ -395,7 +410,7 @@ Fixpoint wop (o : op) : nat :=
   end%nat.
 Fixpoint wops (l : list op) : nat := match l with [] => 0 | x :: r => wop x + wops r end%nat.
 Definition wframe (f : frame) : nat :=
-  match f with FOp o => wop o | FTakeNext => 1 | FDiscLog _ _ => 1 | FDiscDone => 2 | FDestroy => 1 end%nat.
+  match f with FOp o => wop o | FTakeNext => 1 | FDiscLog _ _ _ => 1 | FDiscDone => 2 | FDestroy => 1 end%nat.
 Fixpoint wag (l : list frame) : nat := match l with [] => 0 | x :: r => wframe x + wag r end%nat.
 Fixpoint wq (l : list (N * list op)) : nat :=
   match l with [] => 0 | (_, cb) :: r => 2 + wops cb + wq r end%nat.
